@@ -608,7 +608,7 @@ func (x *Exec) valueInstr(st *State, fr *Frame, in ssa.Value) {
 		x.makeSlice(st, fr, i, set)
 	case *ssa.MakeChan:
 		obj := x.alloc(st, &ChanObj{Typ: i.Type(), Cap: x.scalar(st, x.eval(st, fr, i.Size))})
-		set(VChan{Nil: TFalse, Obj: obj, Typ: i.Type()})
+		set(VChan{Nil: TFalse, Obj: obj, Typ: i.Type(), Id: x.sym.Fresh("chan.id", SErr)})
 	case *ssa.Slice:
 		x.sliceInstr(st, fr, i, set)
 	case *ssa.IndexAddr:
@@ -741,10 +741,14 @@ func (x *Exec) binop(st *State, op token.Token, a, b Value, opndType types.Type,
 			return VScalar{Not(av.Nil)}
 		}
 	case VChan:
+		eq := av.Nil
+		if bv, ok := b.(VChan); ok {
+			eq = chanEq(av, bv)
+		}
 		if op == token.EQL {
-			return VScalar{av.Nil}
+			return VScalar{eq}
 		} else if op == token.NEQ {
-			return VScalar{Not(av.Nil)}
+			return VScalar{Not(eq)}
 		}
 	case VClosure:
 		if op == token.EQL {
@@ -1075,4 +1079,15 @@ func (x *Exec) sortedObls() []*Obligation {
 	o := append([]*Obligation(nil), x.obls...)
 	sort.SliceStable(o, func(i, j int) bool { return o[i].Pos < o[j].Pos })
 	return o
+}
+
+// chanEq: two channel values denote the same channel.
+func chanEq(av, bv VChan) Term {
+	switch {
+	case av.Obj >= 0 && av.Obj == bv.Obj:
+		return Or(And(av.Nil, bv.Nil), And(Not(av.Nil), Not(bv.Nil)))
+	case av.Id.S != "" && bv.Id.S != "":
+		return Or(And(av.Nil, bv.Nil), And(Not(av.Nil), Not(bv.Nil), Eq(av.Id, bv.Id)))
+	}
+	return And(av.Nil, bv.Nil)
 }
